@@ -16,7 +16,7 @@ NA = {
 
 # property -> (technique, level text, level note, design ref)
 T = {
- "C01": ("abstract interpretation of riscv.init and every effects closure over go/ssa (known-bits + bit-dependence, decision-replay path exploration), template rules F0-F11, exact check of immediate/register-field decoding against the ISA formats, canonical-form comparison of every entry's effect terms with a reference semantics table (C01.sem), concrete walk with Go integer wrap-around of the PC-relative address helper on boundary immediates (C01.pcrel) and of the functions building address constants at both ends of the 32- and 64-bit address spaces (C01.wrap); dependence rule for the sign of the signed remainder (C01.remsign, 1 listed known finding); every path without x0 operands compared, paths that assume an immediate value against the definition specialised to it; immediates spelled bit by bit (exact copies of instruction bits, sign/zero extension) on both sides",
+ "C01": ("abstract interpretation of riscv.init and every effects closure over go/ssa (known-bits + bit-dependence, decision-replay path exploration), template rules F0-F11, exact check of immediate/register-field decoding against the ISA formats, canonical-form comparison of every entry's effect terms with a reference semantics table (C01.sem), concrete walk with Go integer wrap-around of the PC-relative address helper on boundary immediates (C01.pcrel) and of the functions building address constants at both ends of the 32- and 64-bit address spaces (C01.wrap); dependence rule for the sign of the signed remainder (C01.remsign, 1 listed known finding); every path without x0 operands compared, paths that assume an immediate value against the definition specialised to it; immediates spelled bit by bit (exact copies of instruction bits, sign/zero extension) on both sides; operands of the signed helpers rendered at their own width",
          "structural necessary conditions of correct lifting decided for all 160 table entries on all abstract paths: closures do not panic, every decoded operand bit influences the effects, access widths match metadata, operand roles (rs1 address / rs2 value / rd target / CSR bits), x0 guarded, XLEN widths, sign extension of immediates and of W results, operand order of non-commutative operations, every RV64 W-form entry agrees with its RV32 twin up to operators whose low bits depend only on low bits (F11); immediate formats I/S/B/U/J and register fields are verified bit-exactly; the lifted effect terms of all 160 entries equal, in a canonical form, the instruction definitions of the ISA manual written in the same vocabulary (operator, operand roles, comparison polarity, targets, widths, sign extension, jalr bit 0, mulh*/AMO selection); the helper adding a signed 32-bit immediate to an address is exact for 0, +-1, +-2^11, MaxInt32 and MinInt32. The meaning of the exprtools helpers themselves (C11) and CSR numbering are NOT decided; a helper replaced by its expansion would be reported although behaviour is unchanged",
          "trusts go/ssa, the abstract interpreter's transfer functions and that pkg/expr constructors mean what they document", "§4 C01"),
  "C02": ("SSA constant evaluation of the opcode tables and of instructionSet for the 8 configurations + exact cube algebra (sharp) against a reference encoding table; dominance rules for length check / 4-byte read; provenance of the returned parser's matcher (a cache is accepted only with a key walked to be injective over all configurations)",
@@ -46,8 +46,8 @@ T = {
  "C10": ("concrete walks (E7+ with a byte-buffer model) of the expreval operators for which a finite argument exists: setWidth (copies only: distinguishable bytes), Ltu (comparisons only: every ordering), Nand (bitwise only: per-bit universe), Add (digit step of a radix-256 ripple-carry adder over its finite domain: boundary digits quick, all 2^17 cases thorough; walked as the middle digit of a three-byte sum so that the outgoing carry is visible), Lsh/Rsh (byte moves plus an in-place bit shift: shift amount as an atom, one- to three-byte operands incl. operands wider/narrower than the width, all 2^16 two-byte values x bit shifts 1..7 thorough), bigInt (bytes handed to big.Int.SetBytes); ownership rule: a Value operand is only handed, with the operation width, to a width-adjusting method or another such function (C10.operands)",
          "zero extension / truncation to the operation width (for every operation: no operand byte is read before the adjustment), unsigned comparison, NAND, addition modulo 2^(8w) (digit step verified exhaustively, relying on the loop treating every digit alike) and the shifts given the amount big.Int reports are decided. The products and quotients computed by math/big (Mul, Div), division by zero and the conversion of big.Int results are numerical and NOT decided; that lessEval selects the branch Ltu names is C09.allconst",
          "trusts go/ssa and the walker's byte-buffer model", "§4 C10"),
- "C11": ("term extraction from SSA (the expression a gadget builds, helpers inlined) and three symbolic arguments over that term: per-bit truth tables for Nand-only terms, polynomial normal form over Z/2^(8w) for Add/Mul/complement terms (quotient as an atom), case analysis (operand zero / non-zero; a<b, a=b, a>b) for selections comparing with 0, 1 or the operands; two gadgets decided relative to an inner gadget kept as a node (Les on Lts, SignedMul on SignExtend)",
-         "14 of the gadgets are decided for every width and every operand value: BitNot, BitAnd, BitOr, BitXor, Ones (bitwise), Negate, Sub, NewWidthGadget, Mod incl. divisor zero (ring), Bool, Not, BoolCond, Eq, Leu (cases); Les relative to Lts and SignedMul relative to SignExtend. NOT decided: Abs, SignedDiv, SignedMod, SignExtend, RshA, Lts, MaskBits, IntNegative (their meaning depends on sign bits and masks that vary with the width) and the meaning of the IR operators themselves (C10)",
+ "C11": ("term extraction from SSA (the expression a gadget builds, helpers inlined) and three symbolic arguments over that term: per-bit truth tables for Nand-only terms, polynomial normal form over Z/2^(8w) for Add/Mul/complement terms (quotient as an atom), case analysis (operand zero / non-zero; a<b, a=b, a>b) for selections comparing with 0, 1 or the operands; four gadgets decided relative to an inner gadget kept as a node (Les on Lts, SignedMul on SignExtend, IntNegative and Abs on the sign mask)",
+         "14 of the gadgets are decided for every width and every operand value: BitNot, BitAnd, BitOr, BitXor, Ones (bitwise), Negate, Sub, NewWidthGadget, Mod incl. divisor zero (ring), Bool, Not, BoolCond, Eq, Leu (cases); Les relative to Lts, SignedMul relative to SignExtend, IntNegative and Abs on the sign mask, which is itself decided by a walk over all 255 widths. NOT decided: SignedDiv, SignedMod, SignExtend, RshA, Lts, MaskBits (their meaning depends on sign bits and masks that vary with the width) and the meaning of the IR operators themselves (C10)",
          "trusts go/ssa; relies on C10 for Add/Mul/Div/Nand at width w being the ring operations, the bitwise complement-and, and all ones on division by zero", "§4 C11"),
  "C12": ("decision table of dropUselessWidthGadget by CFG walk over the 13 weak orderings of (context, gadget, argument) widths against gadget >= min(arg, w); setWidth walked per node type; purgeWidthGadgetsKeepWidth walked over gadget chains; WidthGadgetArg walked over the 16 shape combinations; context-width agreement of every prune call site",
          "the width-gadget decision function is decided exhaustively; pruning contexts are the consuming widths; addresses are never pruned in a narrowing context; setWidth re-makes only Const and narrowed RegLoad",
